@@ -95,10 +95,23 @@ def ev(e, env):
         return base[ev(e.slice, env)]
     if isinstance(e, ast.IfExp):
         return ev(e.body, env) if ev(e.test, env) else ev(e.orelse, env)
+    if isinstance(e, (ast.ListComp, ast.SetComp, ast.GeneratorExp)) and len(e.generators) == 1 \
+            and isinstance(e.generators[0].target, ast.Name):
+        gen = e.generators[0]
+        out = []
+        for item in ev(gen.iter, env):
+            env2 = dict(env)
+            env2[gen.target.id] = item
+            if all(ev(c, env2) for c in gen.ifs):
+                out.append(ev(e.elt, env2))
+        return frozenset(out) if isinstance(e, ast.SetComp) else tuple(out)
+    if isinstance(e, ast.Name):
+        raise Unknown(key)
     if isinstance(e, ast.Call) and isinstance(e.func, ast.Name) and not e.keywords:
         args = [ev(a, env) for a in e.args]
         fn = {"min": min, "max": max, "len": len, "bool": bool, "int": int, "abs": abs,
-              "any": any, "all": all, "tuple": tuple, "set": frozenset}.get(e.func.id)
+              "any": any, "all": all, "tuple": tuple, "set": frozenset, "list": tuple,
+              "frozenset": frozenset, "sorted": lambda x: tuple(sorted(x))}.get(e.func.id)
         if fn:
             return fn(*args)
     raise Unknown(key)
